@@ -294,8 +294,12 @@ def gen_history(rng, cfg, length, weights=None, equal_sizes=False, allocs=(1,), 
                 s.elems = []
             elif op == "reserve":
                 n = rng.choice([0, s.cap, s.cap + 1, s.cap + 3, max(0, s.cap - 1)])
-                b = s.budget + rng.choice([0, 0, 16, 64]) if n > s.cap else rng.choice([0, s.budget, s.budget + 8])
-                b = max(b, s.payload()) if n > s.cap else b
+                if n > s.cap:
+                    # any budget that still covers the stored payload is allowed: smaller than before, equal, larger
+                    b = rng.choice([s.payload(), s.payload() + rng.choice([0, 1, 8]), s.budget, s.budget + rng.choice([0, 16, 64])])
+                    b = max(b, s.payload())
+                else:
+                    b = rng.choice([0, s.budget, s.budget + 8])
                 lines.append("reserve v%d %d %d" % (k, n, b))
                 if n > s.cap and not inject:
                     s.cap, s.budget = n, b
@@ -540,7 +544,7 @@ def gen_element(rng, cfg, n_ops):
     return lines
 
 
-def gen_fault_matrix(rng, cfg):
+def gen_fault_matrix(rng, cfg, faults=(0, 1)):
     """systematic fault enumeration: for every allocating operation between a small and a large vector (two
     allocator instances) fail its 1st and its 2nd allocation in turn; then dump, reuse and tear down the operands"""
     fixed = [rng.choice([1, 2]) for _ in range(cfg.nfixed())]
@@ -559,8 +563,21 @@ def gen_fault_matrix(rng, cfg):
     seqs = []
     ops = ["reserve v0 9 %d" % (9 * pay0), "reserve v1 5 %d" % (5 * pay0), "copy v0 v2", "copy v1 v2", "copyassign v0 v1", "copyassign v1 v0",
            "moveassign v0 v1", "moveassign v1 v0", "new v3 2 %d %s 1" % (2 * pay0, fixed_text(fixed))]
+    if faults is None:
+        # no faults: the assignment matrix (every pair direction x operation), operands reused afterwards
+        for op in ops[2:8] + ["swap v0 v1", "move v0 v2", "move v1 v2", "copyassign v0 v0", "moveassign v1 v1", "swap v1 v1"]:
+            lines = setup()
+            pocs_ok = cfg.alloc[2] == "1" or cfg.alloc[3] == "1"
+            if op.startswith("swap v0 v1") and not pocs_ok:
+                continue   # allocator-aware swap of unequal non-propagating allocators is outside the contract
+            lines += [op, "dump v0", "dump v1", "dump v2"]
+            lines += ["new v4 2 %d %s 1" % (2 * pay0, fixed_text(fixed)), "emplace v4 %s" % gen_elem(rng, cfg, fixed, 3, 10 ** 9, same)[0],
+                      "clear v1", "dump v1", "copyassign v4 v1", "dump v1", "moveassign v4 v0", "dump v0", "dump v4",
+                      "destroy v0", "destroy v1", "destroy v2", "destroy v4", "end"]
+            seqs.append(lines)
+        return seqs
     for op in ops:
-        for k in (0, 1):
+        for k in faults:
             lines = setup()
             # afterwards every operand must still be usable: dumped, cleared, assigned to (from a fresh vector), destroyed
             lines += ["failat %d" % k, op, "failoff", "dump v0", "dump v1", "dump v2",
@@ -602,4 +619,21 @@ def gen_tight_fill(rng, cfg, mode):
         lines.append("emplace v0 %s" % elems[0][0])
     lines.append("dump v0")
     lines.append("end")
+    return lines
+
+
+def gen_shrinking_reserve(rng, cfg):
+    """a generously budgeted vector is reserved beyond its capacity with a budget that only covers what is stored:
+    the new block is smaller than the old one; afterwards the vector is filled to the new limits"""
+    lines = ["tables"]
+    fixed = [rng.choice([1, 2]) for _ in range(cfg.nfixed())]
+    text, pay, same = gen_elem(rng, cfg, fixed, 2, 10 ** 9)
+    big = max(400, 30 * pay)
+    lines.append("new v0 2 %d %s 1" % (big, fixed_text(fixed)))
+    lines.append("emplace v0 %s" % text)
+    n = rng.choice([3, 4])
+    lines.append("reserve v0 %d %d" % (n, n * pay))
+    for _ in range(n - 1):
+        lines.append("emplace v0 %s" % gen_elem(rng, cfg, fixed, 2, 10 ** 9, same)[0])
+    lines += ["dump v0", "reserve v0 %d %d" % (n + 1, (n + 1) * pay), "emplace v0 %s" % gen_elem(rng, cfg, fixed, 2, 10 ** 9, same)[0], "end"]
     return lines
